@@ -384,7 +384,11 @@ def _verify(con: Contract, pack: Pack, modular_contracts: dict, res: FuncResult)
             term = z3.Const(f"arg.{a.vararg.arg}{i}", V.Val)
             st.assume(eng.external_ref_fact(st, term))
             params[f"{a.vararg.arg}{i}"] = term
-            argvals.append(SV(term))
+            et = con.params.get(f"{a.vararg.arg}{i}", ANY)  # optional type of the i-th variadic argument
+            if isinstance(et, _ObjT):
+                et.bind(eng)
+            st.assume(et.pred(term))
+            argvals.append(SV(term, hint=et.hint))
     pre = st.copy()
     ctx0 = Ctx(eng, params, pre, pre)
     for nm, fn in con.requires_:
